@@ -479,6 +479,22 @@ func (p *printer) defaultLit(a *spec.Attr) string {
 			parts[i] = Leaf(x[i])
 		}
 		return "[]" + goPrim(et.Kind) + "{" + strings.Join(parts, ", ") + "}"
+	case spec.Map:
+		et, _ := p.s.Resolve(rt.Elem.Type)
+		if et == nil {
+			et = rt.Elem.Type
+		}
+		m, _ := vtree.IsMap(a.Default)
+		keys := make([]string, 0, len(m))
+		for k := range m {
+			keys = append(keys, k)
+		}
+		sort.Strings(keys)
+		parts := make([]string, len(keys))
+		for i, k := range keys {
+			parts[i] = q(vtree.Text(k)) + ": " + Leaf(m[k])
+		}
+		return "map[string]" + goPrim(et.Kind) + "{" + strings.Join(parts, ", ") + "}"
 	case spec.Bytes:
 		return q(string(mustB64(vtree.Text(a.Default))))
 	case spec.Int64:
